@@ -63,6 +63,20 @@ Theorem C05_query_from_invariant : forall n s ws q a b ea eb, vinv n s -> 0 < q 
   fc ws q s a b = fc_spec ws q n (evs s) a b.
 Proof. intros n s ws q a b ea eb I. exact (fc_eq_spec n s I ws q a b ea eb). Qed.
 
+(* Round 2.  One history type: Adds (without Flush), ForklessCause through the LRU (any capacity, never
+   purged - the real onDropNotFlushed does not purge cache.ForklessCause), Flush and DropNotFlushed.
+   Every answer equals the specification on the view that was current when it was asked.  Why the stale
+   LRU entries are harmless: an answer depends only on the sub-DAG below A (C05_spec_stable_under_growth)
+   and ids determine events (hypothesis: every added event is drawn from one id -> event assignment U). *)
+Theorem C05_history_answers_equal_spec : forall ws q n cap U ops, 0 < q -> wf_hops n U [] [] ops ->
+  let '(_, _, out) := fold_left (hstep ws q) ops (vs_init n, fcache_new cap, []) in
+  forall a b r E, In (a, b, r, E) out -> r = fc_spec ws q n E a b.
+Proof. exact history_answers_equal_spec. Qed.
+(* crit-freedom: under the invariant forklessCause never reaches a "not found" crit path *)
+Theorem C05_query_never_crits : forall n s ws q a b ea eb, vinv n s -> 0 < q -> evt s a ea -> evt s b eb ->
+  fc_res ws q s a b = Some (fc_spec ws q n (evs s) a b).
+Proof. exact fc_res_spec. Qed.
+
 (* the executable hypothesis check run by the driver on every generated stream *)
 Theorem C05_wf_check_is_hypothesis : forall n E e, wf_evb n E e = true <-> wf_ev n E e.
 Proof. exact wf_evb_iff. Qed.
@@ -95,6 +109,16 @@ Proof. vm_compute. repeat split; reflexivity. Qed.
 Example C05_ex_indexed : indexed ex_o 4 /\ indexed ex_o 1 /\ indexed ex_o 6 /\ quorum_of [1;1;1] = 3.
 Proof. repeat split; try (eexists; vm_compute; reflexivity). Qed.
 
+(* a history in which a cached answer survives a Drop and is served again after the re-add *)
+Definition ex_U : list (N * event) := map (fun e => (eid e, e)) ex_o.
+Definition ex_hist : list hop :=
+  map HAdd (firstn 3 ex_o) ++ [HFlush; HAdd (nth 3 ex_o (nth 0 ex_o (Build_event 0 0 0 []))); HQuery 4 1; HDrop;
+                               HAdd (nth 3 ex_o (nth 0 ex_o (Build_event 0 0 0 []))); HQuery 4 1].
+Example C05_ex_history :
+  let '(_, c, out) := fold_left (hstep [1;1;1] 3) ex_hist (vs_init 3, fcache_new 5, []) in
+  map (fun x => snd (fst x)) out = [true; true] /\ length (fc_items c) = 1%nat.
+Proof. vm_compute. split; reflexivity. Qed.
+
 Print Assumptions C05_anc_is_ancestry.
 Print Assumptions C05_spec_counts_validator.
 Print Assumptions C05_spec_row_is_spec.
@@ -106,3 +130,5 @@ Print Assumptions C05_spec_stable_under_growth.
 Print Assumptions C05_wf_check_is_hypothesis.
 Print Assumptions C05_flush_drop_histories.
 Print Assumptions C05_query_from_invariant.
+Print Assumptions C05_history_answers_equal_spec.
+Print Assumptions C05_query_never_crits.
